@@ -20,6 +20,8 @@ import IpcHub.Lemmas.AuthTokSim
 import IpcHub.Lemmas.Ids
 import IpcHub.Lemmas.AuthWitness
 import IpcHub.Lemmas.AuthSeq
+import IpcHub.Lemmas.AuthShort
+import IpcHub.Model.PathMatchExpect
 import IpcHub.Model.AuthInst
 namespace IpcHub.Props.C11
 open IpcHub.PathMatch IpcHub.PatternLang IpcHub.Auth IpcHub.Monitor
@@ -189,6 +191,75 @@ theorem c11_admin_follows_save (h : List AdminOp) (n : List Char) :
       | none => false
       | some u => u.admin) = allowed env h n .admin [] :=
   admin_usersOf Auth.genCfg env c11_user_facts h n
+
+/-! ## a right covers nothing above its masks -/
+
+/-- Every decision of C11 goes through the matcher of C16: its source facts — the path scanner, the
+    wildcard constants and, statement by statement, `NewPathMatcher`, `pathMacher.Match` (BOTH length
+    guards: a path with fewer sections than the mask is refused, a longer one only under the end
+    wildcard), `partCount`, `initMatchers`, `ValidatePermission`, `Scanner.Scan` — are obligations
+    of C11 too (regenerated from the tree under check by C16's translator on every run of C11). -/
+theorem c11_matcher_source_facts :
+    Gen.authFactsUnknown = [] ∧ Gen.pathScannerTrims = false ∧ Gen.pathScannerDelim = "/" ∧
+    Gen.sectionWildcard = "+" ∧ Gen.endWildcard = "*" ∧
+    Gen.semicolonScanner = PathMatch.Expected.semicolonScanner ∧
+    Gen.pmSkel_NewPathMatcher = PathMatch.Expected.pmSkel_NewPathMatcher ∧
+    Gen.pmSkel_Match = PathMatch.Expected.pmSkel_Match ∧
+    Gen.pmSkel_AlwaysMatch = PathMatch.Expected.pmSkel_AlwaysMatch ∧
+    Gen.pmSkel_partCount = PathMatch.Expected.pmSkel_partCount ∧
+    Gen.pmSkel_initMatchers = PathMatch.Expected.pmSkel_initMatchers ∧
+    Gen.pmSkel_ValidatePermission = PathMatch.Expected.pmSkel_ValidatePermission ∧
+    Gen.pmSkel_Scan = PathMatch.Expected.pmSkel_Scan ∧
+    Gen.pmSkel_NewScanner = PathMatch.Expected.pmSkel_NewScanner := by
+  decide
+
+/-- the right string of a saved record that an action is decided with -/
+def rightOf (r : Rec) : Right → List Char
+  | .pull => r.pull
+  | .push => r.push
+
+/-- **A right covers no path that is two or more sections shorter than each of its masks.**  For
+    EVERY administrative history, user, right (pull and push) and path: if every mask of the right
+    string last saved has at least two sections more than the path (`/live/room1/*`, `/a/+/c/*`,
+    `/cam/1/3` against `/live`, `/a`, `/a/x`, `/cam`), the model's `ValidatePermission` refuses —
+    whatever the sections are, with or without the end wildcard (which stands for zero or more
+    sections AFTER all the others have been met: `/live/*` does cover `/live`).  With the
+    entry-point theorems below: no entry point serves or publishes such a path. -/
+theorem c11_right_covers_no_shorter_path (h : List AdminOp) (n p : List Char) (rt : Right) (r : Rec)
+    (hr : lastSaved asciiLower h n = some r)
+    (hadm : r.admin = false ∨ rightOf r rt ≠ [])
+    (hshort : ∀ pat ∈ patterns asciiSpace (rightOf r rt),
+      (segs asciiLower (trim asciiSpace p)).length + 1 < (segs asciiLower pat).length) :
+    (match getUser Auth.genCfg (usersOf Auth.genCfg h) n with
+      | none => false
+      | some u => u.validatePermission Auth.genCfg p rt) = false := by
+  rw [c11_rights_follow_save]
+  cases rt
+  · simpa [allowed, env, hr, actOf, rightOf] using
+      specPermits_short asciiLower asciiSpace r.pull r.admin p hadm hshort
+  · simpa [allowed, env, hr, actOf, rightOf] using
+      specPermits_short asciiLower asciiSpace r.push r.admin p hadm hshort
+
+/-- non-vacuity of `c11_right_covers_no_shorter_path`, and the boundary (tests by evaluation): after
+    "viewer" was saved with pull `/live/room1/*;/a/+/c/*`, `/live` and `/a` are two sections short
+    of every mask — refused; `/live/room1` is one short of a `*`-mask — covered, like everything
+    below it; `/live/room2/a` is not. -/
+example :
+    let u : UserIn := { name := "viewer".toList, admin := false, push := "/pub/cam1/*".toList,
+                        pull := "/live/room1/*;/a/+/c/*".toList, password := .plain "pw".toList }
+    let h := [AdminOp.save u true]
+    (∃ r, lastSaved asciiLower h "Viewer".toList = some r ∧ (r.admin = false ∨ rightOf r .pull ≠ []) ∧
+      (∀ p ∈ ["/live".toList, "/a".toList, " /A/ ".toList], ∀ pat ∈ patterns asciiSpace (rightOf r .pull),
+        (segs asciiLower (trim asciiSpace p)).length + 1 < (segs asciiLower pat).length)) ∧
+    allowed env h "viewer".toList .pull "/live".toList = false ∧
+    allowed env h "viewer".toList .pull "/a/x".toList = false ∧
+    allowed env h "viewer".toList .push "/pub".toList = false ∧
+    allowed env h "viewer".toList .pull "/live/room1".toList = true ∧
+    allowed env h "viewer".toList .pull "/live/room1/a/b".toList = true ∧
+    allowed env h "viewer".toList .pull "/a/zz/c/1".toList = true ∧
+    allowed env h "viewer".toList .pull "/live/room2/a".toList = false ∧
+    allowed env h "viewer".toList .push "/pub/cam1/x".toList = true := by
+  decide
 
 /-- The relation the decision theorems assume holds for the table built from the monitor's own
     history, given a token table that answers like the monitor's grants (`c11_tokens_*`). -/
